@@ -319,7 +319,10 @@ def run(chk, repo):
     wi = [norm_stmt(s) for s in ast.walk(gi.node) if isinstance(s, ast.If) and unparse(s.test) == 'args.force' for s in s.body]
     chk.ob('C12.d', '--force wipes pool files and re-initialises metadata together', gi.where,
            wi == ['index_dir.wipe_canonical_peptides()', 'index_dir.init_metadata()'], f"--force branch: {wi}", key=gi.qual + '::force', fn=gi.qual)
-
+    # ------------------------------------------------------------------ shared: option plumbing by name
+    from rules.shared import optname
+    chk.clauses.append('C12.e (shared R-THREAD) an option value bound to a name that is itself a CLI option carries that very option')
+    optname(chk, repo, 'C12.e', ['cli.generate_index', 'cli.update_index'], floor=0)
 
 def fstr(node):
     if node is None:
